@@ -3,7 +3,7 @@
 // Every output buffer has exactly the size the API documents (BASE64_ENCODE_LENGTH / BASE64_ENCODE_FINAL_LENGTH /
 // BASE64_DECODE_LENGTH) and lives on the heap, so that ASan reports any write beyond the promise.
 // No include guard on purpose (included inside a namespace per translation unit).
-struct EncRes { std::string e; size_t k1 = 0, k2 = 0, n1 = 0, n2 = 0, nf = 0; };
+struct EncRes { std::string e, raw; size_t k1 = 0, k2 = 0, n1 = 0, n2 = 0, nf = 0; };
 struct DecRes { bool upd = false, fin = false; std::string out; size_t k1 = 0, k2 = 0, n1 = 0, n2 = 0; };
 
 static EncRes DoEnc(const std::string &s, long split)
@@ -28,6 +28,12 @@ static EncRes DoEnc(const std::string &s, long split)
         std::unique_ptr<char[]> b(new char[BASE64_ENCODE_FINAL_LENGTH]);
         r.nf = base64_encode_final(&ctx, b.get());
         r.e.append(b.get(), r.nf);
+    }
+    {   // the one-shot encoder of the same API (exactly BASE64_ENCODE_RAW_LENGTH bytes)
+        const size_t n = BASE64_ENCODE_RAW_LENGTH(s.size());
+        std::unique_ptr<char[]> b(new char[n]);
+        base64_encode_raw(b.get(), s.size(), reinterpret_cast<const uint8_t*>(s.data()));
+        r.raw.assign(b.get(), n);
     }
     return r;
 }
@@ -69,7 +75,7 @@ static void OpRt(const char *impl, const std::string &s, long esplit, long dspli
 {
     const EncRes e = DoEnc(s, esplit);
     const DecRes d = DoDec(e.e, dsplit);
-    os << "{\"op\":\"rt\",\"impl\":\"" << impl << "\",\"s\":" << U::Bytes(s) << ",\"e\":" << U::Bytes(e.e)
+    os << "{\"op\":\"rt\",\"impl\":\"" << impl << "\",\"s\":" << U::Bytes(s) << ",\"e\":" << U::Bytes(e.e) << ",\"raweq\":" << U::B(e.raw == e.e)
        << ",\"ek1\":" << e.k1 << ",\"ek2\":" << e.k2 << ",\"en1\":" << e.n1 << ",\"en2\":" << e.n2 << ",\"enf\":" << e.nf << ",";
     PrintDec(os, d);
     os << ",\"ub\":" << U::B(U::TakeReports() > 0) << "}" << std::endl;
@@ -100,11 +106,13 @@ static void OpRt3(const char *impl, std::ostream &os)
             char e[BASE64_ENCODE_LENGTH(3) + BASE64_ENCODE_FINAL_LENGTH];
             size_t en = base64_encode_update(&ec, e, len, reinterpret_cast<const uint8_t*>(raw));
             en += base64_encode_final(&ec, e + en);
+            char oneShot[BASE64_ENCODE_RAW_LENGTH(3)];
+            base64_encode_raw(oneShot, len, reinterpret_cast<const uint8_t*>(raw));
             struct base64_decode_ctx dc;
             base64_decode_init(&dc);
             uint8_t out[BASE64_DECODE_LENGTH(8)];
             size_t n = 0;
-            const bool ok = en == size_t(4 * ((len + 2) / 3)) && base64_decode_update(&dc, &n, out, en, e) && base64_decode_final(&dc)
+            const bool ok = en == size_t(4 * ((len + 2) / 3)) && memcmp(oneShot, e, en) == 0 && base64_decode_update(&dc, &n, out, en, e) && base64_decode_final(&dc)
                             && n == size_t(len) && memcmp(out, raw, len) == 0;
             ++count;
             if (!ok && !bad++) firstBad = s;
